@@ -133,8 +133,25 @@ func admissionRun(transport string, policy dns.MsgAcceptFunc, pkts [][]byte) ([]
 				if err != nil {
 					return
 				}
-				c.Write(append([]byte{byte(len(p) >> 8), byte(len(p))}, p...))
-				vsched.AwaitQuiescence()
+				// segmentation rotates with the packet number: whole frame; first prefix octet alone; both prefix octets
+				// alone and the body in two halves — after each segment the server runs until it blocks in its next read
+				fr := append([]byte{byte(len(p) >> 8), byte(len(p))}, p...)
+				var segs [][]byte
+				switch i % 3 {
+				case 0:
+					segs = [][]byte{fr}
+				case 1:
+					segs = [][]byte{fr[:1], fr[1:]}
+				default:
+					h := 2 + len(p)/2
+					segs = [][]byte{fr[:1], fr[1:2], fr[2:h], fr[h:]}
+				}
+				for _, sg := range segs {
+					if len(sg) > 0 {
+						c.Write(sg)
+						vsched.AwaitQuiescence()
+					}
+				}
 				var got []byte
 				buf := make([]byte, 70000)
 				for c.Unread() > 0 {
